@@ -1,0 +1,45 @@
+//! Verification hooks. Compiled only with `--cfg saphyr_verif`; never part of a normal build.
+//!
+//! A deterministic simulator drives the library with a step clock instead of a wall clock. The
+//! decode loop touches no caller-visible seam while it runs, so it reports its iterations here.
+//! With the default budget (`u64::MAX`) the hook is inert even when compiled in.
+
+use std::cell::Cell;
+
+thread_local! {
+    static DECODE_TICKS: Cell<u64> = const { Cell::new(0) };
+    static DECODE_BUDGET: Cell<u64> = const { Cell::new(u64::MAX) };
+}
+
+/// Payload of the panic raised when the decode loop exceeds its step budget.
+#[derive(Debug, Clone, Copy, PartialEq, Eq)]
+pub struct DecodeBudgetExceeded {
+    /// The number of iterations performed when the budget was exceeded.
+    pub ticks: u64,
+}
+
+/// Reset the decode-loop tick counter of this thread and set its budget.
+pub fn set_decode_budget(budget: u64) {
+    DECODE_TICKS.with(|t| t.set(0));
+    DECODE_BUDGET.with(|b| b.set(budget));
+}
+
+/// Number of decode-loop iterations on this thread since the last [`set_decode_budget`].
+#[must_use]
+pub fn decode_ticks() -> u64 {
+    DECODE_TICKS.with(Cell::get)
+}
+
+/// Called once per iteration of the decode loop.
+///
+/// # Panics
+/// Panics with a [`DecodeBudgetExceeded`] payload when the budget of this thread is exceeded.
+pub fn decode_tick() {
+    let ticks = DECODE_TICKS.with(|t| {
+        t.set(t.get() + 1);
+        t.get()
+    });
+    if ticks > DECODE_BUDGET.with(Cell::get) {
+        std::panic::panic_any(DecodeBudgetExceeded { ticks });
+    }
+}
